@@ -34,7 +34,14 @@ def main(tier):
     thorough = tier == "thorough"
     rng = random.Random(common.seed() + 19)
     table = os.path.join(bd, "table.json")
-    db, proj = export.export("default", table)
+    db = export.build_db("default")
+    # categories an application registers itself: non-integer / negative defaults in non-base units
+    db.AddCategory("verif pipe size", "length", valid_units=["in", "ft", "cm"], default_unit="in", default_value=5.75)
+    db.AddCategory("verif cold", "temperature", default_unit="degC", default_value=-2.5)
+    db.AddCategory("verif rate", "volume flow rate", default_unit="bbl/d", default_value=1e-3)
+    proj = export.project_db(db)
+    with open(table, "w") as f:
+        json.dump(proj, f)
     UnitDatabase.PushSingleton(db)
     events = []
     try:
@@ -46,8 +53,9 @@ def main(tier):
         def forms_for(u, c, given):
             v = values[(len(events) + len(u)) % len(values)]
             vs = [float(v), 2.0, -1.0]
-            kind = rng.choice(["list", "tuple", "ndarray"])
-            cont = {"list": lambda: list(vs), "tuple": lambda: tuple(vs), "ndarray": lambda: numpy.array(vs)}[kind]
+            kind = rng.choice(["list", "tuple", "ndarray", "points"])
+            cont = {"list": lambda: list(vs), "tuple": lambda: tuple(vs), "ndarray": lambda: numpy.array(vs),
+                    "points": lambda: [(float(v), 1.5), (2.0, 2.5), (4.0, -1.0)]}[kind]     # three points of size two
             fv = FractionValue(2, Fraction(1, 2))
             q = lambda: ObtainQuantity(u, c)
             S = [("Scalar(v,u,c)", lambda: Scalar(v, u, c)), ("Scalar(c,v,u)", lambda: Scalar(c, v, u)), ("Scalar(q,v)", lambda: Scalar(q(), v)),
@@ -96,7 +104,8 @@ def main(tier):
             dv, du = db.GetDefaultValue(c), db.GetDefaultUnit(c)
             for cls, forms in (("Scalar", [("Scalar(c)", lambda: Scalar(c)), ("Scalar(c,dv,du)", lambda: Scalar(c, dv, du))]),
                                ("Array", [("Array(c)", lambda: Array(c)), ("Array(c,[],du)", lambda: Array(c, [], du))]),
-                               ("FractionScalar", [("FractionScalar(c)", lambda: FractionScalar(c)), ("FractionScalar(c,dv,du)", lambda: FractionScalar(c, dv, du))])):
+                               ("FractionScalar", [("FractionScalar(c)", lambda: FractionScalar(c)), ("FractionScalar(c,dv,du)", lambda: FractionScalar(c, dv, du)),
+                                                   ("FractionScalar(dv,du,c)", lambda: FractionScalar(dv, du, c))])):
                 projs, eq, first = build_all(forms)
                 events.append({"op": "CatAlone", "cls": cls, "c": c, "projs": projs, "all_eq": eq, "unit": first.GetUnit() if first is not None else "",
                                "category": first.GetCategory() if first is not None else "", "qtype": first.GetQuantityType() if first is not None else ""})
